@@ -505,6 +505,11 @@ class ASTRewriter(ast.NodeTransformer):
             raise Exception("Len only receives one argument")
 
         args = self.__unroll_arg(node.args[0])
+        if len(args) == 1 and args[0] is node.args[0]:
+            # Not a tuple whose size is known here (ie: the result of a call)
+            raise Exception(
+                f"Len of a value of unknown size: {ast.dump(node.args[0])}"
+            )
         return ast.Constant(value=len(args))
 
     def __call_minmax(self, node):
